@@ -422,29 +422,48 @@ fn reader_enum<S: Shape, T: Shape>(
     kani::cover!(delivered_all, "reach-end");
 }
 
-/// capacity 1 / 1-byte reads (a roll and a grow at every byte); contexts (0,0),(1,1); invert
+// Each harness keeps its enumeration at <= 32 concrete runs for 3-line inputs:
+// CBMC's memory grows with the number of runs (64 runs: > 6 GB).
+
+/// capacity 1 / 1-byte reads (a roll and a grow at every byte); contexts (0,0),(1,1)
 pub(crate) fn c02_reader_tiny<S: Shape>() {
-    reader_enum::<S, S>(0, &[0], &[(0, 0), (1, 1)], &[false, true], &[false], &[false], false)
+    reader_enum::<S, S>(0, &[0], &[(0, 0), (1, 1)], &[false], &[false], &[false], false)
 }
-/// capacity 2 / 3-byte reads and capacity 4 / 2-byte reads; asymmetric contexts; stop-on-nonmatch
+/// same, inverted
+pub(crate) fn c02_reader_tiny_inv<S: Shape>() {
+    reader_enum::<S, S>(0, &[0], &[(0, 0), (1, 1)], &[true], &[false], &[false], false)
+}
+/// capacity 2 / 3-byte reads; asymmetric contexts; stop-on-nonmatch off/on
 pub(crate) fn c02_reader_wide<S: Shape>() {
-    reader_enum::<S, S>(0, &[1, 2], &[(1, 0), (0, 1)], &[false], &[false, true], &[false], false)
+    reader_enum::<S, S>(0, &[1], &[(1, 0), (0, 1)], &[false], &[false, true], &[false], false)
+}
+/// capacity 4 / 2-byte reads; asymmetric contexts; stop-on-nonmatch off/on
+pub(crate) fn c02_reader_wide2<S: Shape>() {
+    reader_enum::<S, S>(0, &[2], &[(1, 0), (0, 1)], &[false], &[false, true], &[false], false)
 }
 /// passthru (with and without invert / stop-on-nonmatch)
 pub(crate) fn c02_reader_passthru<S: Shape>() {
-    reader_enum::<S, S>(0, &[0, 1], &[(0, 0)], &[false, true], &[false, true], &[true], false)
+    reader_enum::<S, S>(0, &[0], &[(0, 0)], &[false, true], &[false, true], &[true], false)
 }
 /// one line buffer reused for two consecutive searches (as Searcher does per file)
 pub(crate) fn c02_reader_reuse<S: Shape>() {
     reader_enum::<S, S>(0, &[1], &[(1, 1)], &[false], &[false], &[false], true)
 }
-/// C14: quit detection through the reader
+/// C14: quit detection through the reader, capacity 1 / 1-byte reads
 pub(crate) fn c14_reader_quit<S: Shape>() {
-    reader_enum::<S, S>(1, &[0, 2], &[(0, 0), (1, 1)], &[false, true], &[false], &[false], false)
+    reader_enum::<S, S>(1, &[0], &[(0, 0), (1, 1)], &[false, true], &[false], &[false], false)
 }
-/// C14: convert detection through the reader (T = S with NULs converted)
+/// C14: quit detection, capacity 4 / 2-byte reads
+pub(crate) fn c14_reader_quit_wide<S: Shape>() {
+    reader_enum::<S, S>(1, &[2], &[(0, 0), (1, 1)], &[false, true], &[false], &[false], false)
+}
+/// C14: convert detection through the reader (T = S with NULs converted), capacity 1 / 1-byte reads
 pub(crate) fn c14_reader_convert<S: Shape, T: Shape>() {
-    reader_enum::<S, T>(2, &[0, 1], &[(0, 0), (1, 1)], &[false, true], &[false], &[false], false)
+    reader_enum::<S, T>(2, &[0], &[(0, 0), (1, 1)], &[false, true], &[false], &[false], false)
+}
+/// C14: convert detection, capacity 2 / 3-byte reads
+pub(crate) fn c14_reader_convert_wide<S: Shape, T: Shape>() {
+    reader_enum::<S, T>(2, &[1], &[(0, 0), (1, 1)], &[false, true], &[false], &[false], false)
 }
 
 include!("c13.rs");
